@@ -99,6 +99,8 @@ type Machine struct {
 	crcCalls  int
 	sleeps    int
 	timeComps map[*Term]timeComp
+	timeWinLo, timeWinHi uint64
+	winChecked           map[*Term]bool
 	hexModel  bool
 	rawCRC    bool
 	entry     func(g *G)
